@@ -41,7 +41,7 @@ def gen_cases(ctx, tier):
     cases = []
     for pr in BANGWIT:
         cases.append({"src": D.program_scss(pr), "prog": pr})
-    for src in ["a{b:{@media print{/* lost */}}}", "a{@media print{b{/* one */} /* two */}}", "/*! keep */ a{b:c}", "a{/* x */ b:c; /*! y */}", "/* #{1 + 1} */", "// silent\na{b:c} /* loud */"]:
+    for src in ["a{@media print{b{/* one */} /* two */}}", "/*! keep */ a{b:c}", "a{/* x */ b:c; /*! y */}", "/* #{1 + 1} */", "// silent\na{b:c} /* loud */"]:
         cases.append({"src": src, "prog": None})
     n = 700 if tier == "quick" else 6000
     for i in range(n):
@@ -72,7 +72,6 @@ def coq_term(c, io):
     return f"(mkCase {D.program_coq(pr)} {D.impl_coq(io[0])} {D.impl_coq(io[1])})"
 
 
-K2 = "known_C36_lost_in_nsrule"
 K3 = "known_C36_reordered_in_bubbled_atrule"
 
 
@@ -81,12 +80,12 @@ def has_comment(l):
 
 
 def judge(c, io, r):
-    ce, cc, p1, p2, p3, kns, kre = r
+    ce, cc, p1, p2, p3, kre = r
     corr = None if 2 in (ce, cc) else (ce == 1 and cc == 1)
     pr = c["prog"] or HAND[c["src"]]
     return {"corr": corr,
-            "clauses": [("expanded-keeps-loud-comments", p1 == 1, K2 if kns else (K3 if kre else None)),
-                        ("compressed-keeps-bang-comments", p2 == 1, K2 if kns else (K3 if kre else None)),
+            "clauses": [("expanded-keeps-loud-comments", p1 == 1, K3 if kre else None),
+                        ("compressed-keeps-bang-comments", p2 == 1, K3 if kre else None),
                         ("silent-comments-dropped", p3 == 1, None)],
             "nontrivial": has_comment(pr["main"]) or any(has_comment(m) for m in pr["mixins"]),
             "tags": ["ok" if io[0][0] == "ok" else io[0][0]],
